@@ -57,12 +57,12 @@ Proof. reflexivity. Qed.
 Lemma parse_arr_S f cnt bs acc : parse_arr (S f) cnt bs acc =
   if cnt =? 0 then Some (VArr (rev acc), bs)
   else '(v, r) <~ parse f bs ;; parse_arr f (cnt - 1) r (v :: acc).
-Proof. reflexivity. Qed.
+Proof. rewrite ?rev_alt. reflexivity. Qed.
 
 Lemma parse_map_S f cnt bs acc : parse_map (S f) cnt bs acc =
   if cnt =? 0 then Some (VMap (rev acc), bs)
   else '(k, r) <~ parse f bs ;; '(v, r') <~ parse f r ;; parse_map f (cnt - 1) r' ((k, v) :: acc).
-Proof. reflexivity. Qed.
+Proof. rewrite ?rev_alt. reflexivity. Qed.
 
 (* both sides are the same chain of conditionals: split on the head condition of both,
    close the branch that leaves the chain, continue in the other *)
@@ -996,13 +996,13 @@ Proof.
               | ]).
       apply local_ret.
     + intros cnt acc.
-      change (local (fun t => if cnt =? 0 then Some (VArr (rev acc), t)
+      change (local (fun t => if cnt =? 0 then Some (VArr (rev_append acc []), t)
                               else '(v, r) <~ parse f t ;; parse_arr f (cnt - 1) r (v :: acc))).
       apply local_if; [apply local_ret|].
       apply (local_obind (parse f) (fun v r => parse_arr f (cnt - 1) r (v :: acc))); [exact Lp|].
       intros v. apply IHa.
     + intros cnt acc.
-      change (local (fun t => if cnt =? 0 then Some (VMap (rev acc), t)
+      change (local (fun t => if cnt =? 0 then Some (VMap (rev_append acc []), t)
                               else '(k, r) <~ parse f t ;; '(v, r') <~ parse f r ;;
                                    parse_map f (cnt - 1) r' ((k, v) :: acc))).
       apply local_if; [apply local_ret|].
